@@ -1,0 +1,23 @@
+//go:build verif
+
+package connectconformance
+
+// Contracts for the deductive verifier in /verif (comment-only file; no code).
+
+//@ func newFilter
+//@   ensures (result == nil) == (run == nil && noRun == nil)
+//@   ensures result != nil ==> result.run == run && result.noRun == noRun && fresh(result)
+
+// A case is run iff it matches some --run pattern (or none were given) and no --skip pattern.
+//@ func (*testCaseFilter).accept
+//@   requires testCase != nil && testCase.Request != nil
+//@   modifies atomicI32
+//@   ensures result == ((f == nil || f.run == nil || nameGlobs(f.run, testCase.Request.TestName)) &&
+//@                       !(f != nil && f.noRun != nil && nameGlobs(f.noRun, testCase.Request.TestName)))
+
+//@ func (*testCaseFilter).apply
+//@   requires forall i int :: 0 <= i && i < len(testCases) ==> testCases[i] != nil && testCases[i].Request != nil
+//@   modifies atomicI32
+//@   ensures (f == nil || (f.run == nil && f.noRun == nil)) ==> result == testCases
+//@   ensures len(result) <= len(testCases)
+//@   loop 0: invariant len(results) <= rangeindex + 1 && fresh(results)
